@@ -20,13 +20,14 @@ Charges == {NoD, D(0, 2), D(100, 2)}
 
 Cfgs == {[atype |-> at, cols |-> cols, layout |-> lay, delim |-> dl, skip |-> sk, datefmt |-> df, order |-> ord, balance |-> bal, conv |-> cv, ruleconv |-> rc, charge |-> ch] :
            at \in {"asset", "liability"}, cols \in {"amount", "creditdebit"}, lay \in {"index", "label", "template"}, dl \in {",", ";"},
-           sk \in {0, 2}, df \in {"%Y-%m-%d", "%d.%m.%Y"}, ord \in {"old_to_new", "new_to_old"}, bal \in BOOLEAN,
+           sk \in {0, 2, 3}, df \in {"%Y-%m-%d", "%d.%m.%Y"}, ord \in {"old_to_new", "new_to_old"}, bal \in BOOLEAN,
            cv \in {"none", "extract_pos", "compute_pos", "extract_pop", "compute_pop", "disabled"}, rc \in {"none", "disabled", "commodity"},
            ch \in {"none", "column"}}
 
 \* pairwise-ish reduction for the quick tier: every value of every dimension with the conversion and order dimensions crossed fully
 Reduced(c) == \/ (c.delim = "," /\ c.skip = 0 /\ c.datefmt = "%Y-%m-%d")
               \/ (c.delim = ";" /\ c.skip = 2 /\ c.datefmt = "%d.%m.%Y" /\ c.layout = "label")
+              \/ (c.delim = "," /\ c.skip = 3 /\ c.datefmt = "%Y-%m-%d" /\ c.layout \in {"index", "label"} /\ c.conv \in {"none", "extract_pos"} /\ c.ruleconv = "none" /\ c.charge = "none")
 
 MCInit ==
   /\ cfg \in {c \in Cfgs : (c.balance => c.atype = "asset") /\ (MaxRows > 2 \/ Reduced(c))
@@ -50,7 +51,7 @@ MCSpec == MCInit /\ [][MCNext]_<<cfg, rows, opening>>
 DesignOK == AssetConsistentAccepted(cfg, rows, opening) /\ RateOnPricedCommodity(cfg, rows, opening)
 
 DecJson(d) == IF d = NoD THEN [m |-> 0, s |-> -1] ELSE d
-Emit == PrintT(<<"REPLAY", ToJson([module |-> "ImportCsv", cfg |-> cfg, opening |-> opening,
+Emit == PrintT(<<"REPLAY", ToJson([module |-> "ImportCsv", cfg |-> cfg, opening |-> opening, head |-> HeadOf(cfg.skip),
                                    file_rows |-> [k \in 1..Len(rows) |-> FileOrder(cfg, rows)[k]],
                                    shown |-> [k \in 1..Len(rows) |-> ShownAmount(cfg, FileOrder(cfg, rows)[k])],
                                    running |-> [k \in 1..Len(rows) |-> RunningAt(rows, k, opening)],
